@@ -105,7 +105,7 @@ def main():
         if pair in RELINK:
             # re-linking with a second A (and B): take-over, re-open, link again from either side
             files["qr"] = cfg(pair, 4, 0, 1, 1, ["channels"], ["plain-same"], ["lo"], 1, "always", extras=RELINK[pair])
-            files["tr"] = cfg(pair, 5, 1, 1, 1, ["channels"], ["plain-same"], ["lo"], 1, "always", extras=2)
+            files["tr"] = cfg(pair, 5 if pair == "DC" else 4, 1, 1, 1, ["channels"], ["plain-same"], ["lo"], 1, "always", extras=2)
         for name, text in files.items():
             with open(f"{pair}_{name}.cfg", "w", encoding="ascii") as fh:
                 fh.write(text)
